@@ -10,12 +10,12 @@ META = {
                  'against bit-level IEEE-754 reference semantics; SAT/SMT verdict over all operand bit patterns',
     'functions_encoded': ['w2c2_base.h: FMIN FMAX TRUNC_S TRUNC_U TRUNC_SAT_S TRUNC_SAT_U (16 instances) DEFINE_REINTERPRET x4',
                           'C emitted by w2c2 for every f32/f64 opcode and every conversion', 'CBMC library models of fabsf copysignf ceilf floorf truncf nearbyintf (+f64)'],
-    'bounds': {'operand values': 'all 2^32 / 2^64 bit patterns per operand', 'programs': 'one per float/conversion opcode', 'unwind': 70},
+    'bounds': {'operand values': 'all 2^32 / 2^64 bit patterns per operand', 'programs': 'one per float/conversion opcode + 16 chains of 2-3 conversion / rounding / bit operations', 'unwind': 70},
     'assumptions': ['+,-,*,/ and int->float, promote/demote: oracle is the same C operator evaluated by CBMC (RNE) on the reference operand path: decides '
                     'operator mapping, operand order and width, not IEEE conformance of a compiler',
                     'sqrt/sqrtf are modelled as one uninterpreted function shared by both sides (CBMC library model is nondeterministic)',
                     "CBMC's float model stands in for the host compiler/libm"],
-    'out_of_claim': ['IEEE correctness of host compiler and libm', 'x87 excess precision', 'rounding modes other than RNE', 'nested float expressions (single-opcode programs only)'],
+    'out_of_claim': ['IEEE correctness of host compiler and libm', 'x87 excess precision', 'rounding modes other than RNE', 'deeper nested float expressions'],
 }
 
 
@@ -27,4 +27,10 @@ def make_jobs(ctx):
             wit.append('trap path')
         jobs.append(e2_job(ctx, 'op_' + op.replace('.', '_'), F.single_op(op), [{'call': 'f'}],
                            backends=['sat', 'cvc5', 'kissat'], witnesses=wit, timeout=120 if ctx.quick else 900))
+    import wasmvalid
+    for k in range(len(F.FLOAT_CHAINS)):
+        m = F.float_chain(k)
+        wasmvalid.validate(m)
+        jobs.append(e2_job(ctx, 'chain_%d' % k, m, [{'call': 'f'}], backends=['sat', 'cvc5', 'kissat'], witnesses=['end of script|trap path'],
+                           timeout=200 if ctx.quick else 900, sample={'chain': F.FLOAT_CHAINS[k]}))
     return jobs
